@@ -299,7 +299,7 @@ def r15b(ctx):
 
 @rule(
     "R15c",
-    ["C15", "C18"],
+    ["C15", "C18", "C08"],
     """INVALIDATION AND FILE IDENTITY: to_parquet clears the read_parquet plan cache on every overwrite path
     (`_cached_plan.clear()` under `if overwrite`, not only inside the directory-exists branch); the token of a
     pyarrow FileInfo - key of the statistics cache and input of the arrow reader's dataset checksum - includes
